@@ -219,7 +219,7 @@ def run(ctx):
                 jobs.append(("single", "function", list(b), ind, True))
     na = len(jobs)
     # Space B
-    core_b = CORE[:6] + CORE[-1:]
+    core_b = CORE[:6] + CORE[-1:] + [":param a: the first value"]     # members are declared with a parameter 'a' 
     for carrier in CARRIERS:
         for b in bodies(core_b, 2 if quick else 3):
             for ind in ("", "  ", "      ", "\t"):
